@@ -42,9 +42,11 @@ Dedup(s, seen) ==          \* keep the first occurrence of every element
 (***************************************************************************)
 Srv(a, u, t, i) == [a |-> a, u |-> u, t |-> t, i |-> i]
 
-IsLinkLocal(a) == a \in {"fe80::1", "fe80::2", "fe80::3"}
+IsLinkLocal(a) == a \in {"fe80::1", "fe80::2", "fe80::3", "fe80::4", "fe80::5", "fe80::6"}
 IsBlacklisted(a) == a \in {"fec0::1"}
-ValidIface(i) == i = "lo"           \* the only interface the harness promises
+\* interfaces the harness promises: the real loopback and (virtual interface table installed through
+\* ares_set_socket_functions_ex) one whose name has the maximum legal length of 15 characters
+ValidIface(i) == i \in {"lo", "verylongiface01"}
 
 Port(p, chanport) == IF p # 0 THEN p ELSE IF chanport # 0 THEN chanport ELSE 53
 
@@ -74,13 +76,16 @@ Resolve(descs, up, tp) ==
 (* LineText is the reference text (the harness binds every junk / extreme  *)
 (* class to several further concrete strings).                             *)
 (***************************************************************************)
-NsClasses == {"ns_a", "ns_b", "ns_6", "ns_ap", "ns_6p", "ns_ll"}
+NsClasses == {"ns_a", "ns_b", "ns_6", "ns_ap", "ns_6p", "ns_ll", "ns_uri_d", "ns_uri_6"}
 NsDesc(c) == CASE c = "ns_a"  -> Srv("10.0.0.1", 0, 0, "")
                [] c = "ns_b"  -> Srv("10.0.0.2", 0, 0, "")
                [] c = "ns_6"  -> Srv("2001:db8::1", 0, 0, "")
                [] c = "ns_ap" -> Srv("10.0.0.1", 5353, 5353, "")
                [] c = "ns_6p" -> Srv("2001:db8::2", 5353, 5353, "")
                [] c = "ns_ll" -> Srv("fe80::1", 0, 0, "lo")
+               \* the dns:// URI form (ares_set_servers_csv(3)), also accepted on nameserver lines
+               [] c = "ns_uri_d" -> Srv("10.0.0.3", 55, 56, "")
+               [] c = "ns_uri_6" -> Srv("2001:db8::4", 5353, 5353, "")
 
 ValidClasses ==
   NsClasses \cup
@@ -91,7 +96,7 @@ ValidClasses ==
    "lookup_fb", "lookup_bf", "lookup_b"}
 
 JunkClasses ==
-  {"ns_bad", "search_empty", "sort_bad", "opt_unknown", "opt_zero", "lookup_junk",
+  {"ns_bad", "ns_uri_bad", "search_empty", "sort_bad", "opt_unknown", "opt_zero", "lookup_junk",
    "comment_hash", "comment_semi", "blank", "junk_binary", "junk_long", "junk_keyword", "junk_lone"}
 
 ExtremeClasses == {"opt_ndots_weird", "opt_ndots_big", "opt_timeout_huge", "opt_tries_huge"}
@@ -105,6 +110,9 @@ LineText(c) ==
     [] c = "ns_6" -> "nameserver 2001:db8::1"      [] c = "ns_ap" -> "nameserver 10.0.0.1:5353"
     [] c = "ns_6p" -> "nameserver [2001:db8::2]:5353"
     [] c = "ns_ll" -> "nameserver fe80::1%lo"      [] c = "ns_bad" -> "nameserver 999.1.1.1"
+    [] c = "ns_uri_d" -> "nameserver dns://10.0.0.3:55?tcpport=56"
+    [] c = "ns_uri_6" -> "nameserver dns://[2001:db8::4]:5353"
+    [] c = "ns_uri_bad" -> "nameserver dns://[fe80::1%<over-long scope>]"
     [] c = "dom_a" -> "domain a.example"           [] c = "dom_two" -> "domain e.example f.example"
     [] c = "search_b" -> "search b.example"        [] c = "search_cd" -> "search c.example d.example"
     [] c = "search_many" -> "search s1.example s2.example s3.example s4.example s5.example s6.example s7.example s8.example"
